@@ -196,6 +196,12 @@ class ConcentrationAnalysis:
                 # Extract scalar version
                 monochromatic_diff = self._reduce_signal(diff)
 
+                # Match the shape of the (possibly non-reduced) signal
+                if self.threshold_cleaning_filter.shape != monochromatic_diff.shape:
+                    self.threshold_cleaning_filter = np.zeros(
+                        monochromatic_diff.shape, dtype=float
+                    )
+
                 # Consider elementwise max
                 self.threshold_cleaning_filter = np.maximum(
                     self.threshold_cleaning_filter, monochromatic_diff
